@@ -471,6 +471,36 @@ Proof.
   intros H. rewrite skipn_app. replace (n - List.length a)%nat with O by lia. reflexivity.
 Qed.
 
+Lemma pylen_app a b : pylen (a ++ b) = pylen a + pylen b.
+Proof. unfold pylen. rewrite filter_app, app_length. lia. Qed.
+
+Lemma index_of_token_end_cp_spec x z :
+  forallb (fun c => negb (is_blank c)) x = true -> token_follow z ->
+  index_of_token_end_cp (x ++ z) = pylen x.
+Proof.
+  intros H [(c & z' & -> & Hc) | ->]; unfold index_of_token_end_cp.
+  - rewrite first_blank_app by assumption. rewrite firstn_app_len. reflexivity.
+  - rewrite first_blank_none.
+    + change nt_statement_end with ["."%char]. rewrite suffixb_app_end. rewrite pylen_app.
+      change (pylen ["."%char]) with 1. lia.
+    + rewrite forallb_app, H. reflexivity.
+Qed.
+
+Definition starts_char (z : str) : Prop := match z with [] => True | c :: _ => is_cont c = false end.
+
+Lemma follow_starts z : token_follow z -> starts_char z.
+Proof.
+  intros [(c & z' & -> & Hc) | ->]; cbn [starts_char]; [|reflexivity].
+  rewrite is_blank_ws in Hc. destruct (is_ws_cases _ Hc) as [-> | ->]; reflexivity.
+Qed.
+
+Lemma cp_advance_app x z : starts_char z -> cp_advance (x ++ z) (Z.to_nat (pylen x)) = List.length x.
+Proof.
+  intros Hz. unfold pylen. rewrite Nat2Z.id. induction x as [|c x IH].
+  - cbn [app filter List.length]. destruct z as [|d z]; [reflexivity|]. cbn [cp_advance]. cbn in Hz. rewrite Hz. reflexivity.
+  - cbn [app filter cp_advance]. destruct (is_cont c); cbn [negb List.length]; rewrite IH; reflexivity.
+Qed.
+
 (** typed branch: the first ^^ of the line is in the object token, no blank
     in the token from there on, and the token is followed by a blank or by the last dot *)
 Lemma lil_hats pre tok z k :
@@ -490,11 +520,19 @@ Proof.
   { unfold slice_from. rewrite norm_idx_in.
     - rewrite Nat2Z.id. apply skipn_app_le. lia.
     - rewrite len_app. unfold len. lia. }
-  rewrite SF. rewrite index_of_token_end_spec by assumption.
+  rewrite SF. rewrite index_of_token_end_cp_spec by assumption.
   assert (FL : find s_hats (pre ++ tok ++ z) = len pre + Z.of_nat k).
   { unfold find. change s_hats with (hat :: [hat]). rewrite find_nat_skip by exact P.
     change (hat :: [hat]) with s_hats. rewrite F'. cbn [option_map]. unfold len. lia. }
-  rewrite FL. f_equal. unfold len. rewrite skipn_length. lia.
+  rewrite FL.
+  assert (SL : slice_from (pre ++ tok ++ z) (len pre + Z.of_nat k) = skipn k tok ++ z).
+  { unfold slice_from. rewrite norm_idx_in.
+    - replace (Z.to_nat (len pre + Z.of_nat k)) with (List.length pre + k)%nat by (unfold len; lia).
+      rewrite skipn_app. rewrite skipn_all2 by lia. cbn [app].
+      replace (List.length pre + k - List.length pre)%nat with k by lia. apply skipn_app_le. lia.
+    - rewrite !len_app. unfold len. lia. }
+  rewrite SL. rewrite cp_advance_app by (apply follow_starts; exact T).
+  f_equal. unfold len. rewrite skipn_length. lia.
 Qed.
 
 (** language branch *)
